@@ -286,9 +286,13 @@ def run_plan(rel, data, plan, flag, mode, flag_how="assign"):
 
 
 def run_case(case):
-    data = open(os.path.join(treeenv.FIXTURES, case["fixture"]), "rb").read()
+    if "fifo" in case:
+        return [v for v in non_seekable_paths()[1] if v["case"] == case]
+    if "warnings_as_errors" in case:
+        return [v for v in warnings_as_errors()[1] if v["case"] == case]
     if "unopenable" in case:
         return [v for v in unopenable_names()[1] if v["case"] == case]
+    data = open(os.path.join(treeenv.FIXTURES, case["fixture"]), "rb").read()
     kind, arg = case["plan"]
     plan = (kind, tuple(arg) if isinstance(arg, list) else arg)
     return run_plan(case["fixture"], data, plan, case["flag"], case["mode"], case.get("flag_how", "assign"))[1]
@@ -353,7 +357,137 @@ def unopenable_names():
     return n, vs[:8]
 
 
+def non_seekable_paths():
+    """A path that names a FIFO (not seekable): whether the load fails on the first seek or copes, every handle the library
+    opened for that name is closed again and the setting is the caller's."""
+    import pathlib
+    import tempfile
+    import threading
+
+    import rv.errors as E
+    from rv.readers.reader import read_sunvox_file
+
+    vs, n = [], 0
+    data = open(os.path.join(treeenv.FIXTURES, "amplifier.sunsynth"), "rb").read()
+    d = tempfile.mkdtemp(prefix="rv-c18-fifo-")
+    try:
+        for as_path in (False, True):
+            for flag in (True, False):
+                n += 1
+                name = os.path.join(d, f"pipe{n}.sunsynth")
+                os.mkfifo(name)
+
+                def feed(name=name):
+                    try:
+                        with _real_builtin_open(name, "wb") as w:
+                            w.write(data)
+                    except OSError:
+                        pass
+                th = threading.Thread(target=feed, daemon=True)
+                th.start()
+                case = {"fifo": [as_path, flag]}
+                key = {"name": "fifo", "given_as": "Path" if as_path else "str", "flag": flag}
+                E.RAISE_CONTROLLER_VALUE_ERRORS = flag
+                _serve[name] = "real"
+                del _opened[:]
+                _install_seams()
+                in_handler = None
+                try:
+                    read_sunvox_file(pathlib.Path(name) if as_path else name)
+                    outcome = "returned"
+                except BaseException as e:
+                    outcome = "raised:" + type(e).__name__
+                    in_handler = E.RAISE_CONTROLLER_VALUE_ERRORS
+                finally:
+                    _remove_seams()
+                    _serve.pop(name, None)
+                after = E.RAISE_CONTROLLER_VALUE_ERRORS
+                E.RAISE_CONTROLLER_VALUE_ERRORS = True
+                left_open = [h for h in _opened if not h.closed]
+                for h in left_open:
+                    h.close()
+                if th.is_alive():
+                    # nobody opened the read end: release the feeder
+                    try:
+                        fd = os.open(name, os.O_RDONLY | os.O_NONBLOCK)
+                        os.close(fd)
+                    except OSError:
+                        pass
+                    th.join(2)
+                os.unlink(name)
+                if left_open:
+                    vs.append(C.viol("library-opened-file-left-open", dict(key, outcome=outcome.split(":")[0]), {"outcome": outcome}, case))
+                if after is not flag or (in_handler is not None and in_handler is not flag):
+                    vs.append(C.viol("strictness-flag-not-restored", dict(key, outcome=outcome.split(":")[0]),
+                                     {"before": flag, "in_handler": in_handler, "after": after, "outcome": outcome}, case))
+    finally:
+        _remove_seams()
+        try:
+            os.rmdir(d)
+        except OSError:
+            pass
+    return n, vs
+
+
+def warnings_as_errors():
+    """The caller runs with warnings turned into errors (`-W error`): whatever the library announces through the warnings
+    module while loading -- now or in a later version -- then surfaces as an exception INSIDE the load; the setting must be
+    the caller's again when it does, and after a load that returns."""
+    import io
+    import warnings
+    from struct import pack
+
+    import rv.errors as E
+    from rv.readers.reader import read_sunvox_file
+    from rvref import codec
+
+    vs, n = [], 0
+    for rel in ("amplifier.sunsynth", "metamodule.sunsynth", "sampler.sunsynth", "single-fm.sunvox"):
+        path = os.path.join(treeenv.FIXTURES, rel)
+        if not os.path.exists(path):
+            continue
+        data = open(path, "rb").read()
+        chunks = codec.parse_chunks(data)
+        variants = {"as-is": data,
+                    "cvals-out-of-range": codec.build_chunks([(cid, pack("<i", 70000) if cid == b"CVAL" else d) for cid, d in chunks])}
+        for vname, x in variants.items():
+            for flag in (True, False):
+                n += 1
+                case = {"warnings_as_errors": [rel, vname, flag]}
+                key = {"file": rel, "variant": vname, "flag": flag}
+                E.RAISE_CONTROLLER_VALUE_ERRORS = flag
+                in_handler = None
+                with warnings.catch_warnings():
+                    warnings.simplefilter("error")
+                    try:
+                        read_sunvox_file(io.BytesIO(x))
+                        outcome = "returned"
+                    except BaseException as e:
+                        outcome = "raised:" + type(e).__name__
+                        in_handler = E.RAISE_CONTROLLER_VALUE_ERRORS
+                after = E.RAISE_CONTROLLER_VALUE_ERRORS
+                E.RAISE_CONTROLLER_VALUE_ERRORS = True
+                if after is not flag or (in_handler is not None and in_handler is not flag):
+                    vs.append(C.viol("strictness-flag-not-restored", dict(key, outcome=outcome.split(":")[0], warnings="error"),
+                                     {"before": flag, "in_handler": in_handler, "after": after, "outcome": outcome}, case))
+    return n, vs[:6]
+
+
 def _task(t):
+    if t[0] == "fifo":
+        r = C.new_result()
+        n, vs = non_seekable_paths()
+        r["evals"] = n
+        r["violations"] = vs
+        r["sample"] = {"fifo": [True, True]}
+        return r
+    if t[0] == "warnings":
+        r = C.new_result()
+        n, vs = warnings_as_errors()
+        r["evals"] = n
+        r["violations"] = vs
+        r["sample"] = {"warnings_as_errors": ["amplifier.sunsynth", "as-is", True]}
+        return r
     if t[0] == "unopenable":
         r = C.new_result()
         n, vs = unopenable_names()
@@ -405,6 +539,8 @@ def run(ctx):
         for lo in range(0, n, 250):
             tasks.append((rel, every, lo, min(n, lo + 250)))
     tasks.append(("unopenable",))
+    tasks.append(("warnings",))
+    tasks.append(("fifo",))
     from rvmc.runner import rotate
 
     agg = C.Agg()
